@@ -427,17 +427,18 @@ def signature(line):
     if l[0] != "E":
         return None
     coder = l[1]
+    found = []
     i, pos, length, flag, reopened = 8, 0, 0, False, False
     while i < len(l):
         t = l[i]
         if t == "W":
             k = int(l[i + 1])
             if pos > 0 and reopened:
-                return "append-after-reopen:coder=" + coder
-            if pos > 0 and flag:
-                return "append-after-read:coder=" + coder
-            if flag:
-                return "rewrite-after-read:coder=" + coder
+                found.append("append-after-reopen:coder=" + coder)
+            elif pos > 0 and flag:
+                found.append("append-after-read:coder=" + coder)
+            elif flag:
+                found.append("rewrite-after-read:coder=" + coder)
             pos += k
             length = max(length, pos)
             i += 2 + k
@@ -454,13 +455,26 @@ def signature(line):
             if t in ("OR", "OW"):
                 pos, flag, reopened = 0, False, t == "OW"
             i += 1
-    return None
+    return found or None
+
+
+def pick_sig(ctx, sigs):
+    """a history may contain several out-of-core-domain call patterns: the one that is a recorded finding explains
+    the failure; otherwise the first pattern (unrecorded -> VIOLATION)"""
+    if not sigs:
+        return None
+    if isinstance(sigs, str):
+        return sigs
+    for sg in sigs:
+        if ctx.match_known(sg) is not None:
+            return sg
+    return sigs[0]
 
 
 def run(ctx):
     r = ctx.rng
-    n_el = 260 if ctx.tier == "quick" else 5000
-    n_bit = 80 if ctx.tier == "quick" else 1500
+    n_el = 260 if ctx.tier == "quick" else 2000
+    n_bit = 80 if ctx.tier == "quick" else 600
     lines = []
     cdir = os.path.join(vc.VERIF, "corpus", "C05")
     ncorpus = 0
@@ -502,9 +516,10 @@ def run(ctx):
         stats["by_kind"][kind] = stats["by_kind"].get(kind, 0) + 1
         if kind == "E":
             stats["by_coder"][toks[1]] = stats["by_coder"].get(toks[1], 0) + 1
-        sig = signature(line)
-        if sig:
-            stats["ext_domain"][sig] = stats["ext_domain"].get(sig, 0) + 1
+        sigs = signature(line)
+        sig = pick_sig(ctx, sigs)
+        for sg in ([sigs] if isinstance(sigs, str) else (sigs or [])):
+            stats["ext_domain"][sg] = stats["ext_domain"].get(sg, 0) + 1
         stats["ops"] += S[i].count("|")
         if rl is None:
             stats["crashes"] += 1
